@@ -94,8 +94,8 @@ theorem is01_of_ofBoolish {ρ : String → K} {e : Exp (Ext K)}
   intro v hv; obtain ⟨b, rfl⟩ := h v hv; exact is01_ofBool b _ rfl
 
 /-- an unflagged and/or node does not collapse to a non-0/1 value. -/
-theorem collapseOK_of_here {isBool : String → Bool} {ρ : String → K} (hB : ∀ x, isBool x = true → B01 (ρ x))
-    {n : Exp (Ext K)}
+theorem collapseOK_of_here {isBool : String → Bool} {ρ : String → K} {n : Exp (Ext K)}
+    (hB : ∀ x ∈ varsOf n, isBool x = true → B01 (ρ x))
     (hn : (∃ es, n = .and es) ∨ (∃ es, n = .or es) ∨ (∃ a b, n = .bin .and a b) ∨ (∃ a b, n = .bin .or a b))
     (h : collapseHere isBool n = false) : CollapseOK ρ n := by
   unfold CollapseOK
@@ -129,7 +129,10 @@ theorem collapseOK_of_here {isBool : String → Bool} {ρ : String → K} (hB : 
     intro v hv
     simp only [eval, Option.some.injEq] at hv
     subst hv
-    exact hB x h
+    refine hB x ?_ h
+    have := varsIn_simplify (varsOf n) n (fun y hy => hy)
+    rw [hs] at this
+    exact this x (by simp [varsOf])
   | abs e => simp [hs] at h
   | min es => simp [hs] at h
   | max es => simp [hs] at h
@@ -137,47 +140,140 @@ theorem collapseOK_of_here {isBool : String → Bool} {ρ : String → K} (hB : 
   | un op e => simp [hs] at h
 
 /-- **unflagged ⇒ no collapsing node**, at every assignment whose Boolean variables are 0/1. -/
-theorem NC_of_not_collapses {isBool : String → Bool} {ρ : String → K} (hB : ∀ x, isBool x = true → B01 (ρ x)) :
-    ∀ e : Exp (Ext K), collapsesNonbinary isBool e = false → NC ρ e := by
+theorem NC_of_not_collapses {isBool : String → Bool} {ρ : String → K} {S : String → Prop}
+    (hB : ∀ x, S x → isBool x = true → B01 (ρ x)) :
+    ∀ e : Exp (Ext K), (∀ x ∈ varsOf e, S x) → collapsesNonbinary isBool e = false → NC ρ e := by
   intro e
   induction e using Exp.ind with
-  | num v => intro _; simp [NC]
-  | var s => intro _; simp [NC]
-  | abs e ih => intro h; simp only [collapsesNonbinary] at h; simpa [NC] using ih h
-  | not e ih => intro h; simp only [collapsesNonbinary] at h; simpa [NC] using ih h
-  | un op e ih => intro h; simp only [collapsesNonbinary] at h; simpa [NC] using ih h
+  | num v => intro _ _; simp [NC]
+  | var s => intro _ _; simp [NC]
+  | abs e ih => intro hs h; simp only [collapsesNonbinary] at h; simpa [NC] using ih (by simpa [varsOf] using hs) h
+  | not e ih => intro hs h; simp only [collapsesNonbinary] at h; simpa [NC] using ih (by simpa [varsOf] using hs) h
+  | un op e ih => intro hs h; simp only [collapsesNonbinary] at h; simpa [NC] using ih (by simpa [varsOf] using hs) h
   | min es ih =>
-    intro h
+    intro hs h
     simp only [collapsesNonbinary, collapsesNonbinaryAny_false] at h
     simp only [NC, NCList_iff]
-    exact fun e he => ih e he (h e he)
+    exact fun e he => ih e he (fun x hx => hs x (by simp only [varsOf]; exact mem_varsOfList.mpr ⟨e, he, hx⟩)) (h e he)
   | max es ih =>
-    intro h
+    intro hs h
     simp only [collapsesNonbinary, collapsesNonbinaryAny_false] at h
     simp only [NC, NCList_iff]
-    exact fun e he => ih e he (h e he)
+    exact fun e he => ih e he (fun x hx => hs x (by simp only [varsOf]; exact mem_varsOfList.mpr ⟨e, he, hx⟩)) (h e he)
   | and es ih =>
-    intro h
+    intro hs h
     simp only [collapsesNonbinary, Bool.or_eq_false_iff, collapsesNonbinaryAny_false] at h
     simp only [NC, NCList_iff]
-    exact ⟨collapseOK_of_here hB (Or.inl ⟨es, rfl⟩) h.1, fun e he => ih e he (h.2 e he)⟩
+    exact ⟨collapseOK_of_here (fun x hx => hB x (hs x hx)) (Or.inl ⟨es, rfl⟩) h.1,
+      fun e he => ih e he (fun x hx => hs x (by simp only [varsOf]; exact mem_varsOfList.mpr ⟨e, he, hx⟩)) (h.2 e he)⟩
   | or es ih =>
-    intro h
+    intro hs h
     simp only [collapsesNonbinary, Bool.or_eq_false_iff, collapsesNonbinaryAny_false] at h
     simp only [NC, NCList_iff]
-    exact ⟨collapseOK_of_here hB (Or.inr (Or.inl ⟨es, rfl⟩)) h.1, fun e he => ih e he (h.2 e he)⟩
+    exact ⟨collapseOK_of_here (fun x hx => hB x (hs x hx)) (Or.inr (Or.inl ⟨es, rfl⟩)) h.1,
+      fun e he => ih e he (fun x hx => hs x (by simp only [varsOf]; exact mem_varsOfList.mpr ⟨e, he, hx⟩)) (h.2 e he)⟩
   | xor a b iha ihb =>
-    intro h; simp only [collapsesNonbinary, Bool.or_eq_false_iff] at h; exact ⟨iha h.1, ihb h.2⟩
+    intro hs h; simp only [collapsesNonbinary, Bool.or_eq_false_iff] at h
+    exact ⟨iha (fun x hx => hs x (by simp [varsOf, hx])) h.1, ihb (fun x hx => hs x (by simp [varsOf, hx])) h.2⟩
   | implies a b iha ihb =>
-    intro h; simp only [collapsesNonbinary, Bool.or_eq_false_iff] at h; exact ⟨iha h.1, ihb h.2⟩
+    intro hs h; simp only [collapsesNonbinary, Bool.or_eq_false_iff] at h
+    exact ⟨iha (fun x hx => hs x (by simp [varsOf, hx])) h.1, ihb (fun x hx => hs x (by simp [varsOf, hx])) h.2⟩
   | iff a b iha ihb =>
-    intro h; simp only [collapsesNonbinary, Bool.or_eq_false_iff] at h; exact ⟨iha h.1, ihb h.2⟩
+    intro hs h; simp only [collapsesNonbinary, Bool.or_eq_false_iff] at h
+    exact ⟨iha (fun x hx => hs x (by simp [varsOf, hx])) h.1, ihb (fun x hx => hs x (by simp [varsOf, hx])) h.2⟩
   | bin op a b iha ihb =>
-    intro h
+    intro hs h
     simp only [collapsesNonbinary, Bool.or_eq_false_iff] at h
-    refine ⟨iha h.1.2, ihb h.2, ?_⟩
+    refine ⟨iha (fun x hx => hs x (by simp [varsOf, hx])) h.1.2, ihb (fun x hx => hs x (by simp [varsOf, hx])) h.2, ?_⟩
     rintro (rfl | rfl)
-    · exact collapseOK_of_here hB (Or.inr (Or.inr (Or.inl ⟨a, b, rfl⟩))) (by simpa using h.1.1)
-    · exact collapseOK_of_here hB (Or.inr (Or.inr (Or.inr ⟨a, b, rfl⟩))) (by simpa using h.1.1)
+    · exact collapseOK_of_here (fun x hx => hB x (hs x hx)) (Or.inr (Or.inr (Or.inl ⟨a, b, rfl⟩))) (by simpa using h.1.1)
+    · exact collapseOK_of_here (fun x hx => hB x (hs x hx)) (Or.inr (Or.inr (Or.inr ⟨a, b, rfl⟩))) (by simpa using h.1.1)
+
+/-! ### `LogicOperands01` is the stronger condition -/
+
+theorem NC_of_LO (ρ : String → K) : ∀ e : Exp (Ext K), LogicOperands01 ρ e → (∃ v, eval ρ e = some v) → NC ρ e := by
+  intro e
+  have node : ∀ n : Exp (Ext K), LogicOperands01 ρ n → (∃ v, eval ρ n = some v) → Is01 (eval ρ n) → CollapseOK ρ n := by
+    intro n hlo ⟨v, hv⟩ h01
+    unfold CollapseOK
+    rw [(Rooc.simplify_sound_aux ρ n hlo v hv).1, ← hv]; exact h01
+  induction e using Exp.ind with
+  | num v => intro _ _; simp [NC]
+  | var s => intro _ _; simp [NC]
+  | abs e ih =>
+    intro h ⟨v, hv⟩
+    simp only [LogicOperands01] at h
+    simp only [eval, Option.map_eq_some_iff] at hv
+    obtain ⟨a, ha, _⟩ := hv
+    simpa [NC] using ih h ⟨a, ha⟩
+  | not e ih =>
+    intro h ⟨v, hv⟩
+    simp only [LogicOperands01] at h
+    simp only [eval, Option.map_eq_some_iff] at hv
+    obtain ⟨a, ha, _⟩ := hv
+    simpa [NC] using ih h ⟨a, ha⟩
+  | un op e ih =>
+    intro h ⟨v, hv⟩
+    simp only [LogicOperands01] at h
+    have : ∃ a, eval ρ e = some a := by
+      cases op <;> simp only [eval, Option.map_eq_some_iff] at hv <;> (obtain ⟨a, ha, _⟩ := hv; exact ⟨a, ha⟩)
+    simpa [NC] using ih h this
+  | min es ih =>
+    intro h ⟨v, hv⟩
+    simp only [LogicOperands01, LogicOperands01List_iff] at h
+    simp only [NC, NCList_iff]
+    simp only [eval] at hv
+    split at hv
+    · rename_i x xs hx
+      exact fun e he => ih e he (h e he) ⟨_, eval_of_Def ((evalList_some_iff.1 hx).1 e he)⟩
+    · cases hv
+  | max es ih =>
+    intro h ⟨v, hv⟩
+    simp only [LogicOperands01, LogicOperands01List_iff] at h
+    simp only [NC, NCList_iff]
+    simp only [eval] at hv
+    split at hv
+    · rename_i x xs hx
+      exact fun e he => ih e he (h e he) ⟨_, eval_of_Def ((evalList_some_iff.1 hx).1 e he)⟩
+    · cases hv
+  | and es ih =>
+    intro h ⟨v, hv⟩
+    have hn := node _ h ⟨v, hv⟩ (is01_eval_and ρ es)
+    simp only [LogicOperands01, LogicOperands01List_iff] at h
+    obtain ⟨hd, _⟩ := eval_and_iff.1 hv
+    simp only [NC, NCList_iff]
+    exact ⟨hn, fun e he => ih e he (h.1 e he) ⟨_, eval_of_Def (hd e he)⟩⟩
+  | or es ih =>
+    intro h ⟨v, hv⟩
+    have hn := node _ h ⟨v, hv⟩ (is01_eval_or ρ es)
+    simp only [LogicOperands01, LogicOperands01List_iff] at h
+    obtain ⟨hd, _⟩ := eval_or_iff.1 hv
+    simp only [NC, NCList_iff]
+    exact ⟨hn, fun e he => ih e he (h.1 e he) ⟨_, eval_of_Def (hd e he)⟩⟩
+  | xor a b iha ihb =>
+    intro h ⟨v, hv⟩
+    simp only [LogicOperands01] at h
+    simp only [eval] at hv
+    cases ha : eval ρ a <;> cases hb : eval ρ b <;> simp [ha, hb] at hv
+    exact ⟨iha h.1 ⟨_, ha⟩, ihb h.2 ⟨_, hb⟩⟩
+  | implies a b iha ihb =>
+    intro h ⟨v, hv⟩
+    simp only [LogicOperands01] at h
+    simp only [eval] at hv
+    cases ha : eval ρ a <;> cases hb : eval ρ b <;> simp [ha, hb] at hv
+    exact ⟨iha h.1 ⟨_, ha⟩, ihb h.2 ⟨_, hb⟩⟩
+  | iff a b iha ihb =>
+    intro h ⟨v, hv⟩
+    simp only [LogicOperands01] at h
+    simp only [eval] at hv
+    cases ha : eval ρ a <;> cases hb : eval ρ b <;> simp [ha, hb] at hv
+    exact ⟨iha h.1 ⟨_, ha⟩, ihb h.2 ⟨_, hb⟩⟩
+  | bin op a b iha ihb =>
+    intro h ⟨v, hv⟩
+    obtain ⟨x, y, hx, hy, _⟩ := eval_bin_some hv
+    have h' := h
+    simp only [LogicOperands01] at h'
+    refine ⟨iha h'.1 ⟨x, hx⟩, ihb h'.2.1 ⟨y, hy⟩, fun hop => ?_⟩
+    exact node _ h ⟨v, hv⟩ (is01_eval_binAndOr ρ a b hop)
 
 end Rooc.LinP
